@@ -646,7 +646,16 @@ Definition reimported_case_ok (fuel : nat) (stdl : list modname) (g : graph)
   let '(bs, names, impl) := c in
   bindings_agree_upto_order names (iter FIX_ITER (fix_reimported fuel (fun m => mem m stdl) g) bs) impl.
 
-Inductive rule_id := RUnused | RDupFrom | RDupRegular | RBreakout | RSort | RSortAliases.
+Inductive rule_id := RUnused | RDupFrom | RDupRegular | RBreakout | RSort | RSortAliases | RDupAll | RSortAll.
+
+(* _fix_imported_attr_as_self on `import m as m` (single alias): the alias is normalised.  The other case of that
+   rule, `import p.q as q` -> `from p import q`, needs the structure of dotted names and is not modelled: the
+   harness does not generate it for the composite rule. *)
+Definition attr_self_stmt (s : stmt) : stmt :=
+  match s with
+  | SImport [al] => SImport [inorm al]
+  | _ => s
+  end.
 
 Definition run_rule (r : rule_id) (used : list name) (l : list stmt) : list stmt :=
   match r with
@@ -657,6 +666,14 @@ Definition run_rule (r : rule_id) (used : list name) (l : list stmt) : list stmt
   | RBreakout => breakout l
   | RSort => sort_stmts l
   | RSortAliases => sort_aliases l
+  (* fixes.fix_duplicate_imports = _fix_imported_attr_as_self . _breakout_stacked_imports .
+     _fix_duplicate_regular_imports . _fix_duplicate_from_imports (which itself ends with
+     _fix_duplicate_regular_imports when it changed something) *)
+  | RDupAll => let l' := dup_from l in
+               let l1 := if list_eqb stmt_eqb l l' then l else dup_regular l' in
+               map attr_self_stmt (breakout (dup_regular l1))
+  (* fixes.sort_imports = _fix_imported_as_self_or_unsorted . _sort_import_statements (+ blank lines) *)
+  | RSortAll => sort_aliases (sort_stmts l)
   end.
 
 (* ordered = the output statement list must be equal; otherwise equal as a set of statements and
